@@ -11,3 +11,9 @@ CLAIMS["C12"] = (
  "Trusted: the compiler's prove pass as enumerator (check_bce), go/ssa, integer overflow ignored, reviewed table tables/panic_justified.json. The generated router's use of the normalised path is checked under C05/C15 once S2 rules exist.",
  "static analysis: compiler-enumerated bounds obligations + guard dominance, finite-domain constant folding of byte predicates, SSA dataflow to sinks",
 )
+CLAIMS["C13"] = (
+ "other",
+ "Structural part only: all exported text codecs of conv and json are paired by name and Go type; each pair is reduced by SSA inlining and constant propagation to its sequence of library calls, and the decoder's sequence must be the element-wise inverse of the encoder's (same base, bitSize not narrower than the type, same layout constant, same Unix unit, parser of the same family as the formatter); float formatting must use shortest round-trip precision or enough digits; fixed scratch buffers must fit the widest output; json.hexEncode's 36 constant destination indices are each written once with the right nibble. The value-level round trip inside strconv/time/netip/uuid/url is trusted via a frozen inverse table, not decided.",
+ "Trusted: frozen inverse table of library formatter/parser pairs and their maximum output widths; go/ssa. Time-format resolution loss and url.URL normal forms are not covered.",
+ "static analysis: sibling cross-check of encoder/decoder call sequences after SSA inlining + constant propagation; constant-index coverage",
+)
